@@ -42,3 +42,17 @@ Proof.
   - intros k Hk. destruct k; try discriminate; vm_compute; reflexivity.
 Qed.
 Print Assumptions ex_table_reading.
+
+(* AT DOCUMENT LEVEL: whatever the source formats, two deliveries that hand over the same rows for every source (in any order, with or
+   without repeated rows) give the same statements for a document of plain triples maps -- the engine's result depends on the delivered
+   row SETS only (through the end-to-end theorem of C01); which rows a reader delivers for a given file is the part measured per format *)
+From Morph Require Import Model.Engine Model.Mapping Model.Spec Model.Fragment Proofs.TermP Proofs.RowSpecP Proofs.DocEngineP Proofs.DocRowsP.
+Theorem same_delivered_rows_same_statements : forall cfg fe scfg raw1 raw2 d rules l1 l2,
+  cfg_agree cfg scfg -> c_nquads cfg = s_nquads scfg -> s_na scfg = c_na cfg ->
+  forallb plain_tm d = true -> normalise d = Ok rules -> (forall rl, In rl rules -> simple_rule rl) ->
+  (forall raw rl rw n, In raw [raw1; raw2] -> In rl rules -> In rw (raw (r_src rl)) -> In n (rule_names rl) -> assoc n rw <> None) ->
+  (forall src rw, In rw (raw1 src) <-> In rw (raw2 src)) ->
+  materialize_rules cfg fe rules (delivered cfg raw1) = Ok l1 -> materialize_rules cfg fe rules (delivered cfg raw2) = Ok l2 ->
+  forall x, In x l1 <-> In x l2.
+Proof. exact engine_plain_document_depends_on_delivered_row_sets. Qed.
+Print Assumptions same_delivered_rows_same_statements.
